@@ -34,6 +34,14 @@ type Violation struct {
 	Sched   []string          `json:"sched,omitempty"`
 }
 
+// Witness: a model of one explored path with the values the harness observed under it;
+// replayed natively to validate the translation (same inputs must give same observations).
+type Witness struct {
+	Model map[string]string `json:"model"`
+	Obs   []string          `json:"obs"`
+	Trace []int             `json:"trace"`
+}
+
 type CheckStat struct {
 	Reached    int
 	Discharged int // unsat answers (or constant-true)
@@ -63,6 +71,7 @@ type Results struct {
 	Assumes    map[string]bool
 	Samples    []string
 	CrossCheck []string // standalone scripts of final check queries (thorough)
+	Witnesses  []Witness
 	MaxDepth   int
 }
 
@@ -79,9 +88,15 @@ type Config struct {
 	StepLimit   int64
 	Workers     int
 	SolverBin   string
+	Fallback    []string
 	QueryMs     int
 	MaxViol     int // stop collecting after this many violations per check
 	KeepScripts bool
+	Witnesses   int
+	RelaxTrunc  bool
+	PatienceMs  int
+	Known       []string
+	Seed        int
 	Verbose     bool
 }
 
@@ -130,6 +145,8 @@ type Machine struct {
 	side        map[*Value]interface{} // side tables for sync primitives keyed by slot address
 	clock       *Term
 	ghost       map[string]Value
+	obsNames    []string
+	obsTerms    []*Term
 	accessLog   *raceLog
 }
 
@@ -180,7 +197,11 @@ func (e *Engine) Run() {
 		wg.Add(1)
 		go func() {
 			defer wg.Done()
-			sol, err := NewSolver(e.cfg.SolverBin, e.cfg.QueryMs)
+			patience := e.cfg.QueryMs
+			if len(e.cfg.Fallback) > 0 && patience > e.cfg.PatienceMs {
+				patience = e.cfg.PatienceMs
+			}
+			sol, err := NewSolver(e.cfg.SolverBin, patience, e.cfg.Seed)
 			if err != nil {
 				panic(err)
 			}
@@ -219,6 +240,8 @@ func (m *Machine) runPath(prefix []int) {
 	m.side = map[*Value]interface{}{}
 	m.clock = nil
 	m.ghost = map[string]Value{}
+	m.obsNames = nil
+	m.obsTerms = nil
 	m.accessLog = nil
 	m.localChecks = map[string]*CheckStat{}
 	m.outcome = PathOutcome{Kind: "ok"}
@@ -321,8 +344,45 @@ func (m *Machine) assertPC(t *Term) {
 }
 
 func (m *Machine) checkSat(extra ...*Term) SatResult {
-	r, _ := m.sol.CheckWith(extra, nil)
+	r, _ := m.solve(extra, nil)
 	return r
+}
+
+// solve asks the primary (incremental) solver with a short patience; when it does not
+// answer, the same query is handed as a standalone script to all configured solvers in
+// parallel (one-shot processes, full timeout) and the first definite answer is taken.
+func (m *Machine) solve(extra []*Term, want []string) (SatResult, map[string]string) {
+	r, model := m.sol.CheckWith(extra, want)
+	if r != Unknown {
+		return r, model
+	}
+	script := m.sol.Standalone(extra)
+	bins := append([]string{}, m.eng.cfg.Fallback...)
+	bins = append(bins, m.eng.cfg.SolverBin)
+	type ans struct {
+		bin   string
+		r     SatResult
+		model map[string]string
+	}
+	ch := make(chan ans, len(bins))
+	t0 := time.Now()
+	for _, b := range bins {
+		go func(b string) {
+			r2, model2, _ := OneShotModel(b, script, want, m.eng.cfg.QueryMs/1000+1)
+			ch <- ans{b, r2, model2}
+		}(b)
+	}
+	res, resModel := Unknown, map[string]string(nil)
+	for range bins {
+		a := <-ch
+		m.stubs["solver-fallback:"+a.bin+":"+a.r.String()]++
+		if a.r != Unknown {
+			res, resModel = a.r, a.model
+			break
+		}
+	}
+	m.sol.Time += time.Since(t0)
+	return res, resModel
 }
 
 // branch decides a symbolic condition, forking when both outcomes are feasible.
@@ -485,10 +545,18 @@ func (m *Machine) check(id string, c *Term) {
 	nc := tNot(c)
 	var r SatResult
 	var model map[string]string
+	defer func() {
+		if rec := recover(); rec != nil {
+			if pa, ok := rec.(pathAbort); ok && pa.kind == "solver-unknown" {
+				cs.Unknown++
+			}
+			panic(rec)
+		}
+	}()
 	if c.IsConst() {
-		r, model = m.sol.CheckWith(nil, m.vars)
+		r, model = m.solve(nil, m.vars)
 	} else {
-		r, model = m.sol.CheckWith([]*Term{nc}, m.vars)
+		r, model = m.solve([]*Term{nc}, m.vars)
 	}
 	switch r {
 	case Unsat:
@@ -539,7 +607,7 @@ func (m *Machine) recordViolation(id string, model map[string]string, note strin
 
 // pathModel asks for a model of the current path condition (used for fault outcomes).
 func (m *Machine) pathModel() map[string]string {
-	r, model := m.sol.CheckWith(nil, m.vars)
+	r, model := m.solve(nil, m.vars)
 	if r != Sat {
 		return nil
 	}
@@ -584,3 +652,45 @@ func engineErrorFromPanic(r interface{}) pathAbort {
 }
 
 var _ = types.Typ
+
+// collectWitness is called at the end of a completed path.
+func (m *Machine) collectWitness() {
+	res := m.eng.res
+	res.mu.Lock()
+	need := len(res.Witnesses) < m.eng.cfg.Witnesses
+	res.mu.Unlock()
+	if !need || len(m.obsNames) == 0 {
+		return
+	}
+	defer func() { recover() }()
+	want := append([]string{}, m.vars...)
+	var symIdx []int
+	for i, t := range m.obsTerms {
+		if !t.IsConst() {
+			want = append(want, m.sol.Text(t))
+			symIdx = append(symIdx, i)
+		}
+	}
+	r, model := m.solve(nil, want)
+	if r != Sat {
+		return
+	}
+	w := Witness{Model: map[string]string{}, Trace: append([]int{}, m.trace...)}
+	for _, v := range m.vars {
+		w.Model[v] = model[v]
+	}
+	for i, t := range m.obsTerms {
+		var val string
+		if t.IsConst() {
+			val = t.iv.String()
+		} else {
+			val = model[m.sol.Text(t)]
+		}
+		w.Obs = append(w.Obs, m.obsNames[i]+"="+val)
+	}
+	res.mu.Lock()
+	if len(res.Witnesses) < m.eng.cfg.Witnesses {
+		res.Witnesses = append(res.Witnesses, w)
+	}
+	res.mu.Unlock()
+}
